@@ -16,7 +16,6 @@
  */
 #include <errno.h>
 #include <inttypes.h>
-#include <stdarg.h>
 #include <stddef.h>
 #include <stdint.h>
 #include <stdlib.h>
@@ -49,7 +48,6 @@ uintmax_t nondet_uintmax(void);
 /* ------------------------------------------------------------------ ghost state */
 struct http_ghost g_http;
 struct http_ghost_in g_http_in;
-struct http_ghost_hdr g_hdr;
 
 /* allocation inside the environment: may fail independently of cbmc's --malloc-may-fail */
 static void *
@@ -81,6 +79,28 @@ http_cb_stub(void * cookie, struct http_response * res)
 		g_http_cb_nheaders = res->nheaders;
 		g_http_cb_bodylen = res->bodylen;
 		g_http_cb_body = res->body;	/* the callback owns the body from here on */
+		/*
+		 * C09 / C08: the header strings handed to the caller are valid strings; the name holds no ':', the value
+		 * neither starts nor ends with optional white space (one arbitrary header, chosen by the harness).
+		 */
+		if (g_http_in.check_headers && g_http_in.hi < res->nheaders) {
+			const char * n = res->headers[g_http_in.hi].header;
+			const char * v = res->headers[g_http_in.hi].value;
+			size_t k, nl = 0, vl = 0;
+			int n_end = 0, v_end = 0, colon = 0;
+
+			for (k = 0; k < HTTP_STRMAX; k++) {
+				if (!n_end && n[k] == '\0') { n_end = 1; nl = k; }
+				if (!n_end && n[k] == ':') colon = 1;
+				if (!v_end && v[k] == '\0') { v_end = 1; vl = k; }
+			}
+			__CPROVER_assert(n_end && v_end, "C09: header name and value are NUL-terminated strings");
+			__CPROVER_assert(!colon, "C09: header name ends at the first ':'");
+			__CPROVER_assert(vl == 0 || (v[0] != ' ' && v[0] != '\t' && v[vl - 1] != ' ' && v[vl - 1] != '\t'),
+			    "C09: optional white space around the header value is trimmed");
+			__CPROVER_assert(v >= n + nl, "C09: the value follows the name");
+			(void)nl;
+		}
 	}
 	return (g_http_cb_rv);
 }
@@ -313,48 +333,21 @@ http_model_string_required(const char * s, const char * what)
 }
 
 int
-http_model_sscanf(const char * s, const char * fmt, va_list ap)
+http_model_sscanf3(const char * s, int * a, int * b, int * c)
 {
-#ifdef HTTP_EXP_SSCANF_K
-	int k = HTTP_EXP_SSCANF_K;	/* cost experiments only */
-#else
 	int k = nondet_int();
-#endif
-	int j;
 
-	VERIF_DIRTY(j);
-	(void)fmt;
 	http_model_string_required(s, "sscanf");
 	__CPROVER_assume(-1 <= k && k <= 3);
-	for (j = 0; j < 3; j++) {
-		int * p = va_arg(ap, int *);
-		if (j < k)
-			*p = nondet_int();
-	}
-	return (k);
-}
-
-int
-sscanf(const char * s, const char * fmt, ...)
-{
-	va_list ap;
-	int k;
-
-	va_start(ap, fmt);
-	k = http_model_sscanf(s, fmt, ap);
-	va_end(ap);
-	return (k);
-}
-
-int
-__isoc99_sscanf(const char * s, const char * fmt, ...)
-{
-	va_list ap;
-	int k;
-
-	va_start(ap, fmt);
-	k = http_model_sscanf(s, fmt, ap);
-	va_end(ap);
+	if (k >= 1)
+		*a = nondet_int();
+	if (k >= 2)
+		*b = nondet_int();
+	if (k >= 3)
+		*c = nondet_int();
+	g_http.sscanf_k = k;
+	if (k >= 3)
+		g_http.sscanf_c = *c;
 	return (k);
 }
 
